@@ -38,7 +38,13 @@ func RunCount(sc Scenario) (*tr.Log, int) {
 		k++
 	}
 	n := 0
-	if sc.Policy != nil {
+	if sc.Policy != nil && sc.Policy.Kind == "free" {
+		s.free.Store(true)
+		s.emit("step", tr.E{"k": k, "do": "free"})
+		s.runFree(&sc, &k)
+		s.quiesce(false)
+		s.free.Store(false)
+	} else if sc.Policy != nil {
 		n = s.runPolicy(&sc, &k)
 		if !sc.Policy.NoDrain {
 			s.step(k, Step{Do: "drain"})
@@ -108,11 +114,14 @@ func (s *Session) exec(st Step) (bool, string) {
 		}
 	case "cancel":
 		r := s.getRPC(st.Rpc)
-		if r.cancel == nil {
+		s.mu.Lock()
+		cancel := r.cancel
+		s.mu.Unlock()
+		if cancel == nil {
 			return false, "no-ctx"
 		}
 		s.emit("ctl", tr.E{"what": "cancel", "rpc": st.Rpc})
-		r.cancel()
+		cancel()
 	case "advance":
 		s.emit("ctl", tr.E{"what": "advance", "ms": st.Ms})
 		time.Sleep(time.Duration(st.Ms) * time.Millisecond)
